@@ -55,10 +55,11 @@ def selftest():
 
 
 def scope(tier):
-    return dict(sizes=[12, 24, 36] if tier == "quick" else [12, 24, 36, 48],
+    return dict(sizes=[12, 24, 36] if tier == "quick" else [12, 24, 36, 48, 60,
+                                                            96],
                 roots="all 144", ragged=[[8, 8], [16, 16], [20, 12],
                                          [28, 16]],
-                board_counts=3000 if tier == "quick" else 20000)
+                board_counts=3000 if tier == "quick" else 200000)
 
 
 def shards(tier):
